@@ -49,14 +49,14 @@ def parsePlusList? {α : Type} (f : String → Option α) (s : String) : Option 
 
 def parseDeal? (s : String) : Option DealIn :=
   match s.splitOn ":" with
-  | [client, provider, st, en, price, cc, pc, verified, tag, sigOk, boundsOk, dcOk] => do
+  | [client, provider, st, en, price, cc, pc, verified, tag, sigOk, boundsOk, dcOk, pm] => do
     let d : Proposal := {
       client := ← parseNat? client, provider := ← parseNat? provider,
       startE := ← parseInt? st, endE := ← parseInt? en, price := ← parseInt? price,
       clientColl := ← parseInt? cc, providerColl := ← parseInt? pc,
       verified := ← parseBool? verified, tag := ← parseNat? tag }
     pure { d := d, sigOk := ← parseBool? sigOk, boundsOk := ← parseBool? boundsOk,
-           dcOk := ← parseBool? dcOk }
+           dcOk := ← parseBool? dcOk, providerMatches := ← parseBool? pm }
   | _ => none
 
 def parseSector? (s : String) : Option SectorDeals :=
@@ -90,9 +90,9 @@ def parseOp (ws : List String) : Option Op :=
     let env : PartyEnv := { resolves := ← parseBool? resolves, miner := if m then some (o, w) else none }
     pure (.withdraw (← parseNat? caller) (← parseNat? nominal) (← parseInt? amount) env
       (← parseBool? sendOk))
-  | ["publish", pr, pm, cc, dc, no, deals] => do
+  | ["publish", prov, pr, pm, cc, dc, no, deals] => do
     let env : PublishEnv := {
-      providerResolves := ← parseBool? pr, providerIsMiner := ← parseBool? pm,
+      provider := ← parseNat? prov, providerResolves := ← parseBool? pr, providerIsMiner := ← parseBool? pm,
       callerControls := ← parseBool? cc, datacapOk := ← parseBool? dc, notifyOk := ← parseBool? no }
     pure (.publish env (← parseList? parseDeal? deals))
   | ["activate", caller, isMiner, sectors] => do
@@ -101,8 +101,8 @@ def parseOp (ws : List String) : Option Op :=
     pure (.scc (← parseNat? caller) (← parseBool? isMiner) (← parseList? parseChanges? sectors))
   | ["settle", ids, burnOk] => do
     pure (.settle (← parseList? parseNat? ids) (← parseBool? burnOk))
-  | ["terminate", caller, isMiner, epoch, sectors, burnOk] => do
-    pure (.terminate (← parseNat? caller) (← parseBool? isMiner) (← parseInt? epoch)
+  | ["terminate", caller, isMiner, sectors, burnOk] => do
+    pure (.terminate (← parseNat? caller) (← parseBool? isMiner)
       (← parseList? parseNat? sectors) (← parseBool? burnOk))
   | ["cron", isCron, burnOk] => do pure (.cron (← parseBool? isCron) (← parseBool? burnOk))
   | _ => none
